@@ -42,6 +42,8 @@ type RunSpec struct {
 	Input    json.RawMessage `json:"input"`
 	Parallel bool            `json:"parallel"` // start together with the following parallel runs
 	Tag      string          `json:"tag"`
+	// Setenv: environment variables set (empty value: unset) right before this run starts (sequential runs only).
+	Setenv map[string]string `json:"setenv"`
 }
 
 // Case is one unit of work.
@@ -421,6 +423,13 @@ func runCase(c *Case) *Result {
 	rawData := make([]any, len(c.Runs))
 	doRun := func(i int) {
 		rs := c.Runs[i]
+		for k, v := range rs.Setenv {
+			if v == "" {
+				_ = os.Unsetenv(k)
+			} else {
+				_ = os.Setenv(k, v)
+			}
+		}
 		var input any
 		if len(rs.Input) > 0 {
 			dec := json.NewDecoder(strings.NewReader(string(rs.Input)))
